@@ -18,7 +18,7 @@ from concurrent.futures import ThreadPoolExecutor
 ROOT = os.path.dirname(os.path.dirname(os.path.abspath(__file__)))
 PY_SYM = os.path.join(ROOT, ".venv", "bin", "python")
 PY_PLAIN = "/venv/bin/python"
-REPO = "/repo"
+REPO = os.environ.get("VERIF_REPO", "/repo")  # VERIF_REPO: testing aid (seeded mutants in scratch worktrees); checks use /repo
 
 
 def _env(plain=False):
